@@ -17,6 +17,7 @@ MECH_DOP_DESC = "dop853-descending-grid-returns-initial-state"
 MECH_SYMP_TIMES = "symplectic-backward-times-positive"
 MECH_TDEP = "directed-system-time-dependent-rhs-evaluated-at-plus-t"
 MECH_HAMRHS = "hamiltonian-system-generic-rhs-not-compilable"
+MECH_ZEROSPAN = "short-span-treated-as-zero-span-by-isclose"
 
 STATE_TOL = 2e-6
 
@@ -251,6 +252,16 @@ def low_level_grids(ctx, probs, reps):
                          "descending": np.linspace(0.0, -T, n),
                          "descending_offset_start": np.linspace(0.9, 0.9 - T, n),
                          "descending_nonuniform": -T * np.linspace(0.0, 1.0, n) ** float(rng.uniform(1.3, 2.0))}
+                # legitimate grids whose span is short compared with their distance from the origin, or short in absolute terms:
+                # nothing in the statement exempts them ("all spans"); a zero-span shortcut must not swallow them
+                t_far = float(rng.choice([40.0, 1000.0]) * rng.uniform(0.5, 1.5))
+                sp_far = t_far * 10.0 ** float(rng.uniform(-7.5, -5.3))
+                sp_tiny = 10.0 ** float(rng.uniform(-11.0, -8.3))
+                n_s = int(rng.choice([2, 3, 9]))
+                kinds.update({"ascending_short_span_far_start": np.linspace(t_far, t_far + sp_far, n_s),
+                              "descending_short_span_far_start": np.linspace(t_far, t_far - sp_far, n_s),
+                              "ascending_tiny_span": np.linspace(0.0, sp_tiny, n_s),
+                              "descending_tiny_span": np.linspace(0.0, -sp_tiny, n_s)})
                 for gname, grid in kinds.items():
                     if len(np.unique(grid)) < len(grid):
                         continue
@@ -272,9 +283,27 @@ def low_level_grids(ctx, probs, reps):
                             ctx.check(False, "G:ascending grid integrates", lambda: {**wit(), "error": (type(exc).__name__ + ": " + str(exc))[:300]})
                         continue
                     ctx.case(f"grid:{gname}:{method}{order}", [pname, method, order, gname, y0.round(10).tolist(), T, n], nontrivial=True)
-                    yr = _ref(fun, y0, grid)
+                    short = "short_span" in gname or "tiny_span" in gname
+                    if short:
+                        # over such a span the flow is its low-order Taylor polynomial to rounding: independent closed-form reference
+                        # y0 + f dt + (f(t0 + dt, y0 + f dt) - f) dt / 2 (second-order, remainder O(dt^3)); tolerance relative to the change
+                        f0 = np.asarray(fun(grid[0], y0), dtype=float)
+                        yr = np.array([y0 + 0.5 * (t_ - grid[0]) * (f0 + np.asarray(fun(t_, y0 + (t_ - grid[0]) * f0), dtype=float)) for t_ in grid])
+                        change = float(np.abs(yr[-1] - y0).max())
+                        tol_here = 1e-3 * change + 8e-16 * (1.0 + float(np.abs(y0).max())) * (1 + len(grid))
+                    else:
+                        yr = _ref(fun, y0, grid)
+                        tol_here = tol
                     e = np.abs(states - yr).max() if states.shape == yr.shape else np.inf
-                    ctx.stat(f"grid_err[{gname}:{method}{order}]", e)
+                    ctx.stat(f"grid_err[{gname}:{method}{order}]" if not short else f"short_grid_err/change[{gname}]", e if not short else e / max(change, 1e-300))
+                    if short:
+                        mech = MECH_ZEROSPAN if (e > tol_here and states.shape == yr.shape and np.all(states == y0[None, :])) else None
+                        cl = ("F:descending grid is integrated correctly or rejected, never silently wrong" if gname.startswith("descending")
+                              else "G:samples are the flow at the requested times")
+                        ctx.check(e <= tol_here and np.array_equal(times, grid), cl + " [short or far-from-origin span]",
+                                  lambda: {**wit(), "err": e, "change_over_span": change, "tol": tol_here, "last_state": states[-1], "ref_last": yr[-1]}, mech)
+                        ctx.check(np.array_equal(states[0], y0), "C:first sample is the initial state (bitwise)", wit)
+                        continue
                     if gname.startswith("descending"):
                         mech = None
                         if e > tol and states.shape == yr.shape and np.all(states == y0[None, :]) and type(integ).__name__ == "_DOP853":
@@ -318,6 +347,31 @@ def system_propagate(ctx, probs, reps):
         ctx.check(np.array_equal(S[0], y0), "C:first sample is the initial state (bitwise)", {"y0": y0})
 
 
+def system_propagate_tiny(ctx, probs, reps):
+    """System.propagate over very short durations (forward and backward): the state must move by f dt, not stay put."""
+    rng = ctx.rng
+    P = probs["cr3bp"]
+    sysm = P["hsys"]
+    for rep in range(reps):
+        if not ctx.mine(rep):
+            continue
+        y0 = P["y0"]()
+        T = 10.0 ** float(rng.uniform(-11.0, -8.3))
+        method, order = [("adaptive", 8), ("adaptive", 5), ("fixed", 8), ("fixed", 4)][rep % 4]
+        fw = 1 if rep % 2 else -1
+        tr = sysm.propagate(y0, tf=T, steps=int(rng.choice([2, 5])), method=method, order=order, forward=fw)
+        t, S = np.asarray(tr.times, dtype=float), np.asarray(tr.states, dtype=float)
+        f0 = P["fun"](0.0, y0)
+        yr = y0 + fw * T * f0
+        change = float(np.abs(yr - y0).max())
+        e = float(np.abs(S[-1] - yr).max())
+        ctx.case(f"System.propagate:tiny-span:{method}{order}:{'fwd' if fw > 0 else 'bwd'}", [y0.tolist(), T], nontrivial=True)
+        mech = MECH_ZEROSPAN if (e > 1e-3 * change + 1e-15 and np.all(S == y0[None, :])) else None
+        ctx.check(e <= 1e-3 * change + 1e-15, "A:System.propagate over a very short duration == flow (state moves by f dt)",
+                  {"y0": y0, "T": T, "method": method, "order": order, "forward": fw, "err": e, "change_over_span": change, "last_state": S[-1]}, mech)
+        ctx.check(t[0] == 0 and abs(t[-1] - fw * T) <= 1e-13 * T, "B:System.propagate times signed (short duration)", {"times": t, "T": T, "forward": fw})
+
+
 def run(ctx):
     ctx.note("rule", "case = one (system family, integrator, order, direction/grid kind, random initial state/span) execution; all are non-trivial; "
                      "families: user autonomous rhs, user time-dependent rhs, CR3BP, polynomial Hamiltonian, 42-D variational (thorough)")
@@ -326,6 +380,7 @@ def run(ctx):
     guarded(ctx, "selective_flip", selective_flip, ctx, probs, ctx.pick(4, 60))
     guarded(ctx, "low_level", low_level_grids, ctx, probs, ctx.pick(1, 8))
     guarded(ctx, "System.propagate", system_propagate, ctx, probs, ctx.pick(10, 80))
+    guarded(ctx, "System.propagate tiny", system_propagate_tiny, ctx, probs, ctx.pick(8, 80))
     m = 1 if ctx.nshards > 1 else 3
     ctx.require("A:backward state == state the flow had at time -t", 5 * m)
     ctx.require("B:backward time stamps are 0, non-positive, decreasing, == -linspace", 5 * m)
